@@ -750,7 +750,8 @@ func lexPredicate(l *lexer) stateFn {
 	for done := false; !done; {
 		switch r := l.next(); r {
 		case backSlash:
-			if nr := l.peek(); nr == quote {
+			// Predicate IDs are printed quoted (%q): both \" and \\ are escape pairs.
+			if nr := l.peek(); nr == quote || nr == backSlash {
 				l.next()
 				continue
 			}
